@@ -93,6 +93,15 @@ func FromBytes(data []byte) (*Labels, error) {
 // length or missing bytes.
 var ErrBufferTooShort = errors.New("rfc1035label: buffer too short")
 
+// ErrNameTooLong is returned when a name, after expanding compression
+// pointers, exceeds the RFC 1035 limit of 255 octets.
+var ErrNameTooLong = errors.New("rfc1035label: name exceeds 255 octets")
+
+// maxNameLen is the length of the longest legal name in its dotted form: 255
+// octets on the wire (RFC 1035, Section 3.1) minus the first length octet and
+// the terminating root label.
+const maxNameLen = 253
+
 // fromBytes decodes a serialized stream and returns a list of labels
 func labelsFromBytes(buf []byte) ([]string, error) {
 	var (
@@ -143,6 +152,9 @@ func labelsFromBytes(buf []byte) ([]string, error) {
 				label += "."
 			}
 			label += chunk
+			if len(label) > maxNameLen {
+				return nil, ErrNameTooLong
+			}
 			pos += length
 		}
 	}
